@@ -14,7 +14,6 @@
 (*    the certificate) decide by multiplication and comparison only whether z is *)
 (*    the correctly rounded image.  C06/C18 model-check that they agree.        *)
 EXTENDS BigNat, JsVal
-LOCAL INSTANCE SequencesExt
 
 DNaN == [c |-> "nan", s |-> 0, m |-> <<>>, e |-> 0]
 DInf(sg) == [c |-> "inf", s |-> sg, m |-> <<>>, e |-> 0]
@@ -266,7 +265,7 @@ DExistsAt(d, nd, kd) ==
   IN (lo # <<>> /\ DDecValid(d, lo, p)) \/ DDecValid(d, BnAdd(lo, BnOne), p)
 DShortest(d) ==
   LET nd == DDecExp(d)
-      bs == FoldLeft(LAMBDA acc, it : IF acc.lo >= acc.hi THEN acc
+      bs == BnFold(LAMBDA acc, it : IF acc.lo >= acc.hi THEN acc
                                       ELSE LET mid == (acc.lo + acc.hi) \div 2
                                            IN IF DExistsAt(d, nd, mid) THEN [lo |-> acc.lo, hi |-> mid]
                                               ELSE [lo |-> mid + 1, hi |-> acc.hi],
@@ -307,7 +306,7 @@ DToBits32(d) ==
   ELSE LET mag == IF d.e >= 32 THEN <<>> ELSE BnLowBits(DTruncMag(d), 32)
            u == IF d.s = 1 /\ mag # <<>> THEN BnSub(DP32, mag) ELSE mag
        IN [db_k \in 1..32 |-> BnBit(u, db_k - 1)]
-DBitsSum(bits, from, to) == FoldLeft(LAMBDA acc, k : acc + bits[k] * BnP2Small[k - from], 0, [db_j \in 1..(to - from + 1) |-> from + db_j - 1])
+DBitsSum(bits, from, to) == BnFold(LAMBDA acc, k : acc + bits[k] * BnP2Small[k - from], 0, [db_j \in 1..(to - from + 1) |-> from + db_j - 1])
 DBitsNat(bits) == BnNorm(<<DBitsSum(bits, 1, 15), DBitsSum(bits, 16, 30), DBitsSum(bits, 31, 32)>>)
 DOfBitsU(bits) == DOfNat(0, DBitsNat(bits))                                      \* as uint32
 DOfBitsS(bits) == IF bits[32] = 0 THEN DOfNat(0, DBitsNat(bits))                 \* as int32
